@@ -131,7 +131,7 @@ CHECKS["C19"] = {
     "rule": "(a) all field lists (1-3 fields x all strings of length<=3 over 5 characters; thorough also 1-2 fields of "
             "length<=4): split(encode(fields)) == fields, the lines before and after are split on their own (a line "
             "of only empty fields is a blank line: own row not judged). (a2) all texts of length<=5 (6) over "
-            "{a , ; ' blank} without leading/trailing blank: split(dumpString(text)) == text. (b) sweep 1: message "
+            "{a , ; ' \" blank} without leading/trailing blank: split(dumpString(text)) == text. (b) sweep 1: message "
             "kind x addressing x ID shape x field lists of 0-2 (kind x part) with fixed texts (+ thorough: 3 fields "
             "on 6 message shapes); sweep 2: 4 (6) message/field shapes x message comment x unit x field comment "
             "over all strings of length<=2 (3) of the text alphabet; sweep 3: every sequence (every order) of 1-2 (3) "
